@@ -193,3 +193,57 @@ class BVExec:
             raise Top("memory operation %s at %s (outside the integer-only fragment)" % (op, i.loc))
         else:
             raise Top("opcode %s" % op)
+
+
+def expr_bv(e, bv, atom, bits_hint=32):
+    """Convert a paths.py expression into a BDD bit-vector. atom(expr) -> vector or None names the inputs."""
+    a = atom(e)
+    if a is not None:
+        return a
+    k = e[0]
+    if k == "c":
+        return bv.const(e[2], e[1])
+    if k == "cast":
+        x = expr_bv(e[4], bv, atom, e[2] or bits_hint)
+        if e[1] == "zext":
+            return bv.zext(x[:e[2]] if e[2] else x, e[3])
+        if e[1] == "sext":
+            return bv.sext(x[:e[2]] if e[2] else x, e[3])
+        if e[1] == "trunc":
+            return bv.trunc(x, e[3])
+        raise Top("cast %s" % e[1])
+    if k == "b":
+        op, bits = e[1], e[2]
+        x, y = expr_bv(e[3], bv, atom, bits), expr_bv(e[4], bv, atom, bits)
+        if op in ("add", "sub", "mul", "and", "or", "xor"):
+            return {"add": bv.add, "sub": bv.sub, "mul": bv.mul, "and": bv.AND, "or": bv.OR, "xor": bv.XOR}[op](x, y)
+        if op in ("shl", "lshr", "ashr"):
+            if bv.is_const(y):
+                return {"shl": bv.shl, "lshr": bv.lshr, "ashr": bv.ashr}[op](x, bv.to_int(y))
+            return bv.var_shift(x, y, op)
+        if op in ("udiv", "urem") and bv.is_const(y):
+            d = bv.to_int(y)
+            if d and d & (d - 1) == 0:
+                sh = d.bit_length() - 1
+                return bv.lshr(x, sh) if op == "udiv" else bv.AND(x, bv.const(d - 1, len(x)))
+        if op == "sdiv" and bv.is_const(y):
+            d = bv.to_int(y)
+            if d and d & (d - 1) == 0:
+                # truncating signed division by 2^k: (x + ((x >>s 31) & (d-1))) >>s k
+                sh = d.bit_length() - 1
+                n = len(x)
+                bias = bv.AND(bv.ashr(x, n - 1), bv.const(d - 1, n))
+                return bv.ashr(bv.add(x, bias), sh)
+        raise Top("operator %s" % op)
+    if k == "icmp":
+        x, y = expr_bv(e[2], bv, atom), expr_bv(e[3], bv, atom)
+        B = bv.b
+        p = e[1]
+        r = {"eq": lambda: bv.eq(x, y), "ne": lambda: B.NOT(bv.eq(x, y)), "ult": lambda: bv.ult(x, y), "ugt": lambda: bv.ult(y, x),
+             "ule": lambda: B.NOT(bv.ult(y, x)), "uge": lambda: B.NOT(bv.ult(x, y)), "slt": lambda: bv.slt(x, y), "sgt": lambda: bv.slt(y, x),
+             "sle": lambda: B.NOT(bv.slt(y, x)), "sge": lambda: B.NOT(bv.slt(x, y))}[p]()
+        return [r]
+    if k == "sel":
+        c = expr_bv(e[1], bv, atom)[0]
+        return bv.mux(c, expr_bv(e[2], bv, atom), expr_bv(e[3], bv, atom))
+    raise Top("expression %s" % (e[0],))
